@@ -25,12 +25,27 @@
 //!                                    1: seq then par), the file rewritten in place with the same shape but other
 //!                                    records (ids 1000..), collected again
 //!   jb  [hi, lo]                     the finite f64 with bit pattern hi * 2^32 + lo through JSONL, CSV, Parquet
+//!   rx  [fmt, h, n, rg, per, pseed, t, p, pol, rec]  ONE streaming source over a written file, run through EVERY
+//!                                    execution configuration (see `engine_run`): collect_seq, collect_par, collect,
+//!                                    Runner { Sequential | Parallel, checkpoint_config None | Some(disabled) |
+//!                                    Some(enabled, policy pol, auto_recover rec) }, with a trailing identity filter, and
+//!                                    as the LEFT and as the RIGHT side of an inner join with an in-memory collection
+//!                                    (run_subplan_seq / run_subplan_par); 18 outcomes in a fixed order
+//!   vo  [fmt, h, na, nb, rg, tot, ranges, pseed]  the public adapters JsonlVecOps / CsvVecOps / ParquetVecOps called
+//!                                    directly: ONE adapter instance, hand-built shard structs (arbitrary ranges and
+//!                                    total) over two files A (ids 0..) and B (ids 1000..): len / split / clone_any on
+//!                                    A, B, A again, plus payloads of a foreign type (must give None)
+//!   g2  [fmt, h, n1, n2, rg1, rg2, per, order, t, p, ps1, ps2]  as gen, but the second generation has n2 records (and
+//!                                    row-group size rg2) and every generation is collected by all four engines
+//!                                    (seq, par, seq+checkpoint, par+checkpoint), in the rotation given by order
 use ibv::{Emitter, SplitMix64, Tier, drive, ok};
-use ironbeam::io::csv::build_csv_shards;
-use ironbeam::io::jsonl::build_jsonl_shards;
-use ironbeam::io::parquet::build_parquet_shards;
+use ironbeam::checkpoint::{CheckpointConfig, CheckpointPolicy};
+use ironbeam::io::csv::{CsvShards, CsvVecOps, build_csv_shards};
+use ironbeam::io::jsonl::{JsonlShards, JsonlVecOps, build_jsonl_shards};
+use ironbeam::io::parquet::{ParquetShards, ParquetVecOps, build_parquet_shards};
+use ironbeam::runner::ExecMode;
 use ironbeam::{
-    Pipeline, Runner, from_vec, read_csv, read_csv_streaming, read_csv_vec, read_jsonl,
+    PCollection, Partition, Pipeline, Runner, VecOps, from_vec, read_csv, read_csv_streaming, read_csv_vec, read_jsonl,
     read_jsonl_streaming, read_jsonl_vec, read_parquet_streaming, read_parquet_vec, write_csv_par,
     write_csv_vec, write_jsonl_par, write_parquet_vec,
 };
@@ -190,6 +205,9 @@ fn valid(kind: &str, input: &Value) -> bool {
         "ow" => "usbuuuuuo",
         "big" => "uuuuuu",
         "gen" => "ubuuuuuuuu",
+        "rx" => "ubuuuuuuub",
+        "vo" => "ubuuuuau",
+        "g2" => "ubuuuuuuuuuu",
         _ => return false,
     };
     let Some(arr) = input.as_array() else { return false };
@@ -254,6 +272,19 @@ fn valid(kind: &str, input: &Value) -> bool {
         }
         "big" => arr[0].as_u64().unwrap() <= 2 && arr[1].as_u64().unwrap() <= 400_000,
         "gen" => arr[0].as_u64().unwrap() <= 2 && arr[2].as_u64().unwrap() <= 10_000 && arr[5].as_u64().unwrap() <= 1,
+        "rx" => arr[0].as_u64().unwrap() <= 2 && arr[2].as_u64().unwrap() <= 10_000,
+        "g2" => arr[0].as_u64().unwrap() <= 2 && arr[2].as_u64().unwrap() <= 10_000 && arr[3].as_u64().unwrap() <= 10_000,
+        "vo" => {
+            // hand-built Parquet ranges are materialised as Vec<usize> by the reader: keep them small
+            let lim = if arr[0].as_u64().unwrap() == 2 { 64 } else { 1 << 40 };
+            arr[0].as_u64().unwrap() <= 2
+                && arr[2].as_u64().unwrap() <= 1000
+                && arr[3].as_u64().unwrap() <= 1000
+                && arr[5].as_u64().unwrap() <= lim
+                && arr[6].as_array().unwrap().iter().all(|r| {
+                    r.as_array().is_some_and(|p| p.len() == 2 && p.iter().all(|x| x.as_u64().is_some_and(|x| x <= lim)))
+                })
+        }
         "jf" => arr[0].as_i64().unwrap().abs() < (1 << 53),
         "jb" => arr.iter().all(|v| v.as_u64().unwrap() < (1 << 32)),
         _ => arr[0].as_u64().unwrap() <= 100_000,
@@ -286,6 +317,119 @@ fn write_parquet_any<T: Serialize + for<'a> Deserialize<'a>>(path: &Path, data: 
     Ok(())
 }
 
+
+// ------------------------------------------------------------------ formats and execution configurations
+
+const FILE_NAMES: [&str; 3] = ["d.jsonl", "d.csv", "d.parquet"];
+
+/// write `data` in format fmt (0 jsonl / 1 csv / 2 parquet; rg = 0: ironbeam's own Parquet writer,
+/// rg > 0: the parquet crate's writer with that max row-group size)
+fn write_fmt<T: Serialize + for<'a> Deserialize<'a>>(fmt: usize, path: &Path, h: bool, rg: usize, data: &Vec<T>) {
+    match fmt {
+        0 => {
+            ironbeam::helpers::jsonl::write_jsonl_vec(path, data).unwrap();
+        }
+        1 => {
+            write_csv_vec(path, h, data).unwrap();
+        }
+        _ => {
+            if rg == 0 {
+                write_parquet_vec(path, data).unwrap();
+            } else {
+                write_parquet_any(path, data, rg).unwrap();
+            }
+        }
+    }
+}
+
+fn whole_fmt<T: serde::de::DeserializeOwned>(fmt: usize, path: &Path, h: bool) -> anyhow::Result<Vec<T>> {
+    match fmt {
+        0 => read_jsonl_vec::<T>(path),
+        1 => read_csv_vec::<T>(path, h),
+        _ => read_parquet_vec::<T>(path),
+    }
+}
+
+fn source_fmt<T: ironbeam::RFBound + serde::de::DeserializeOwned>(
+    fmt: usize,
+    pl: &Pipeline,
+    path: &Path,
+    h: bool,
+    per: usize,
+) -> anyhow::Result<PCollection<T>> {
+    match fmt {
+        0 => read_jsonl_streaming::<T>(pl, path, per),
+        1 => read_csv_streaming::<T>(pl, path, h, per),
+        _ => read_parquet_streaming::<T>(pl, path, per),
+    }
+}
+
+/// checkpoint settings of a case: directory inside the scratch dir, policy index, auto_recover
+struct Ck {
+    dir: PathBuf,
+    pol: u64,
+    rec: bool,
+}
+impl Ck {
+    fn cfg(&self, enabled: bool) -> CheckpointConfig {
+        let policy = match self.pol {
+            0 => CheckpointPolicy::AfterEveryBarrier,
+            1 => CheckpointPolicy::EveryNNodes(1),
+            2 => CheckpointPolicy::EveryNNodes(2),
+            3 => CheckpointPolicy::TimeInterval(0),
+            4 => CheckpointPolicy::Hybrid { barriers: true, interval_secs: 0 },
+            5 => CheckpointPolicy::EveryNNodes(0),
+            _ => CheckpointPolicy::Hybrid { barriers: false, interval_secs: 3600 },
+        };
+        CheckpointConfig {
+            enabled,
+            directory: self.dir.clone(),
+            policy,
+            auto_recover: self.rec,
+            max_checkpoints: if self.pol % 2 == 0 { Some(2) } else { None },
+        }
+    }
+}
+
+/// The execution configurations a collection can be run under (class S = a sequential engine,
+/// P = a parallel engine):
+///   0 S collect_seq                               1 P collect_par(Some t, Some p)
+///   2 S Runner{Sequential, checkpoint enabled}    3 P Runner{Parallel{Some t, Some p}, checkpoint enabled}
+///   4 S collect()                                 5 S Runner{Sequential, Some(disabled config)}
+///   6 P Runner{Parallel{None, None}, default_partitions 1, checkpoint enabled}
+///   7 P Runner{Parallel{None, Some p}, Some(disabled config)}
+const N_ENGINES: usize = 8;
+fn engine_run<T: ironbeam::RFBound>(
+    e: usize,
+    pl: &Pipeline,
+    c: &PCollection<T>,
+    t: usize,
+    p: usize,
+    ck: &Ck,
+) -> anyhow::Result<Vec<T>> {
+    let par = |threads, partitions| ExecMode::Parallel { threads, partitions };
+    let runner = |mode, default_partitions, cfg| Runner { mode, default_partitions, checkpoint_config: cfg };
+    match e {
+        0 => c.clone().collect_seq(),
+        1 => c.clone().collect_par(Some(t), Some(p)),
+        2 => runner(ExecMode::Sequential, 4, Some(ck.cfg(true))).run_collect::<T>(pl, c.node_id()),
+        3 => runner(par(Some(t), Some(p)), 4, Some(ck.cfg(true))).run_collect::<T>(pl, c.node_id()),
+        4 => c.clone().collect(),
+        5 => runner(ExecMode::Sequential, 4, Some(ck.cfg(false))).run_collect::<T>(pl, c.node_id()),
+        6 => runner(par(None, None), 1, Some(ck.cfg(true))).run_collect::<T>(pl, c.node_id()),
+        _ => runner(par(None, Some(p)), 4, Some(ck.cfg(false))).run_collect::<T>(pl, c.node_id()),
+    }
+}
+
+/// outcome of a direct adapter call: ["ok", null] for None, ["ok", x] for Some, ["panic"]
+fn opt_outcome<T>(f: impl FnOnce() -> Option<T>, show: impl FnOnce(T) -> Value) -> Value {
+    match catch_unwind(AssertUnwindSafe(f)) {
+        Ok(Some(v)) => json!(["ok", show(v)]),
+        Ok(None) => json!(["ok", null]),
+        Err(_) => json!(["panic"]),
+    }
+}
+
 fn run(kind: &str, input: &Value) -> Value {
     if !valid(kind, input) {
         return json!(["invalid"]);
@@ -316,7 +460,20 @@ fn run(kind: &str, input: &Value) -> Value {
                 || read_jsonl_streaming::<Small>(&Pipeline::default(), &path, per)?.collect_par(Some(t), Some(p)),
                 show,
             );
-            ok(json!([sh.total_lines, ranges_json(&sh.ranges), whole, seq, par]))
+            // the checkpointing twins of the two engines (a junk line fails them like the plain ones)
+            let ck = Ck { dir: sc.p("ck"), pol: (per % 7) as u64, rec: t % 2 == 0 };
+            let with_ck = |e: usize| {
+                path_outcome(
+                    || {
+                        let pl = Pipeline::default();
+                        let src = read_jsonl_streaming::<Small>(&pl, &path, per)?;
+                        engine_run(e, &pl, &src, t, p, &ck)
+                    },
+                    show,
+                )
+            };
+            let (seqck, parck) = (with_ck(2), with_ck(3));
+            ok(json!([sh.total_lines, ranges_json(&sh.ranges), whole, seq, par, seqck, parck]))
         }
         "js" => {
             let (n, pseed) = (input[0].as_u64().unwrap(), input[1].as_u64().unwrap());
@@ -613,49 +770,29 @@ fn run(kind: &str, input: &Value) -> Value {
             let (per, t, p) = (us(&input[3]), us(&input[4]), us(&input[5]));
             let data: Vec<Tiny> = (0..n).map(|id| Tiny { id }).collect();
             let pl = Pipeline::default();
-            match fmt {
+            let path = sc.p(["big.jsonl", "big.csv", "big.parquet"][fmt]);
+            write_fmt(fmt, &path, true, rg, &data);
+            let (total, ranges) = match fmt {
                 0 => {
-                    let path = sc.p("big.jsonl");
-                    ironbeam::helpers::jsonl::write_jsonl_vec(&path, &data).unwrap();
                     let sh = build_jsonl_shards(&path, per).unwrap();
-                    ok(json!([
-                        sh.total_lines,
-                        ranges_json(&sh.ranges),
-                        path_outcome(|| read_jsonl_vec::<Tiny>(&path), summary),
-                        path_outcome(|| read_jsonl_streaming::<Tiny>(&pl, &path, per)?.collect_seq(), summary),
-                        path_outcome(|| read_jsonl_streaming::<Tiny>(&pl, &path, per)?.collect_par(Some(t), Some(p)), summary)
-                    ]))
+                    (sh.total_lines, ranges_json(&sh.ranges))
                 }
                 1 => {
-                    let path = sc.p("big.csv");
-                    write_csv_vec(&path, true, &data).unwrap();
                     let sh = build_csv_shards(&path, true, per).unwrap();
-                    ok(json!([
-                        sh.total_rows,
-                        ranges_json(&sh.ranges),
-                        path_outcome(|| read_csv_vec::<Tiny>(&path, true), summary),
-                        path_outcome(|| read_csv_streaming::<Tiny>(&pl, &path, true, per)?.collect_seq(), summary),
-                        path_outcome(|| read_csv_streaming::<Tiny>(&pl, &path, true, per)?.collect_par(Some(t), Some(p)), summary)
-                    ]))
+                    (sh.total_rows, ranges_json(&sh.ranges))
                 }
                 _ => {
-                    let path = sc.p("big.parquet");
-                    if rg == 0 {
-                        write_parquet_vec(&path, &data).unwrap();
-                    } else {
-                        write_parquet_any(&path, &data, rg).unwrap();
-                    }
                     let sh = build_parquet_shards(&path, per).unwrap();
                     let gr: Vec<(u64, u64)> = sh.group_ranges.iter().map(|(a, b)| (*a as u64, *b as u64)).collect();
-                    ok(json!([
-                        sh.total_rows,
-                        ranges_json(&gr),
-                        path_outcome(|| read_parquet_vec::<Tiny>(&path), summary),
-                        path_outcome(|| read_parquet_streaming::<Tiny>(&pl, &path, per)?.collect_seq(), summary),
-                        path_outcome(|| read_parquet_streaming::<Tiny>(&pl, &path, per)?.collect_par(Some(t), Some(p)), summary)
-                    ]))
+                    (sh.total_rows, ranges_json(&gr))
                 }
-            }
+            };
+            let ck = Ck { dir: sc.p("ck"), pol: (n % 7), rec: per % 2 == 0 };
+            let whole = path_outcome(|| whole_fmt::<Tiny>(fmt, &path, true), summary);
+            // ONE source handle, the four engines one after the other
+            let src = source_fmt::<Tiny>(fmt, &pl, &path, true, per).unwrap();
+            let outs: Vec<Value> = (0..4).map(|e| path_outcome(|| engine_run(e, &pl, &src, t, p, &ck), summary)).collect();
+            ok(json!([total, ranges, whole, outs[0], outs[1], outs[2], outs[3]]))
         }
         "gen" => {
             let (fmt, h, n, rg) = (us(&input[0]), input[1].as_bool().unwrap(), input[2].as_u64().unwrap(), us(&input[3]));
@@ -720,6 +857,163 @@ fn run(kind: &str, input: &Value) -> Value {
                     (par(&src), b)
                 };
                 gens.push(json!([whole, o_par, o_seq, pay.get()]));
+            }
+            ok(Value::Array(gens))
+        }
+        "rx" => {
+            let (fmt, h, n, rg) = (us(&input[0]), input[1].as_bool().unwrap(), input[2].as_u64().unwrap(), us(&input[3]));
+            let (per, pseed, t, p) = (us(&input[4]), input[5].as_u64().unwrap(), us(&input[6]), us(&input[7]));
+            let ck = Ck { dir: sc.p("ck"), pol: input[8].as_u64().unwrap(), rec: input[9].as_bool().unwrap() };
+            let path = sc.p(FILE_NAMES[fmt]);
+            write_fmt(fmt, &path, h, rg, &recs(pseed, 0, n));
+            let pay = std::cell::Cell::new(true);
+            let show = |v: Vec<Rec>| {
+                let mut ok = true;
+                let ids = ids_of(&v, pseed, &mut ok);
+                if !ok {
+                    pay.set(false);
+                }
+                ids
+            };
+            let pl = Pipeline::default();
+            let whole = path_outcome(|| whole_fmt::<Rec>(fmt, &path, h), &show);
+            // ONE source handle for everything below
+            let src = source_fmt::<Rec>(fmt, &pl, &path, h, per).unwrap();
+            let mut outs = Vec::new();
+            for e in 0..N_ENGINES {
+                outs.push(path_outcome(|| engine_run(e, &pl, &src, t, p, &ck), &show));
+            }
+            // a longer chain (so that node-count policies fire): the source followed by an identity filter
+            let filt = src.clone().filter(|_r: &Rec| true);
+            for e in [2, 3] {
+                outs.push(path_outcome(|| engine_run(e, &pl, &filt, t, p, &ck), &show));
+            }
+            // the source as a join side: key k occurs k % 3 times on the in-memory side
+            let other: Vec<(u64, u64)> =
+                (0..n + 2).flat_map(|k| std::iter::repeat_n((k, 7 * k + 1), (k % 3) as usize)).collect();
+            let oc = from_vec(&pl, other);
+            let keyed = src.clone().key_by(|r: &Rec| r.id);
+            let jl = keyed.join_inner(&oc);
+            let jr = oc.join_inner(&keyed);
+            let show_l = |mut v: Vec<(u64, (Rec, u64))>| {
+                v.sort_by_key(|x| x.0);
+                if !v.iter().all(|(k, (r, w))| *k == r.id && *w == 7 * k + 1 && same(r, &mk_rec(pseed, r.id))) {
+                    pay.set(false);
+                }
+                Value::Array(v.iter().map(|x| json!(x.0)).collect())
+            };
+            let show_r = |mut v: Vec<(u64, (u64, Rec))>| {
+                v.sort_by_key(|x| x.0);
+                if !v.iter().all(|(k, (w, r))| *k == r.id && *w == 7 * k + 1 && same(r, &mk_rec(pseed, r.id))) {
+                    pay.set(false);
+                }
+                Value::Array(v.iter().map(|x| json!(x.0)).collect())
+            };
+            for e in 0..4 {
+                outs.push(path_outcome(|| engine_run(e, &pl, &jl, t, p, &ck), &show_l));
+            }
+            for e in 0..4 {
+                outs.push(path_outcome(|| engine_run(e, &pl, &jr, t, p, &ck), &show_r));
+            }
+            ok(json!([whole, outs, pay.get()]))
+        }
+        "vo" => {
+            let (fmt, h, na, nb, rg) =
+                (us(&input[0]), input[1].as_bool().unwrap(), input[2].as_u64().unwrap(), input[3].as_u64().unwrap(), us(&input[4]));
+            let tot = input[5].as_u64().unwrap();
+            let ranges: Vec<(u64, u64)> =
+                input[6].as_array().unwrap().iter().map(|r| (r[0].as_u64().unwrap(), r[1].as_u64().unwrap())).collect();
+            let pseed = input[7].as_u64().unwrap();
+            let ext = ["jsonl", "csv", "parquet"][fmt];
+            let (pa, pb) = (sc.p(&format!("a.{ext}")), sc.p(&format!("b.{ext}")));
+            write_fmt(fmt, &pa, h, rg, &recs(pseed, 0, na));
+            write_fmt(fmt, &pb, h, rg, &recs(pseed, 1000, nb));
+            // hand-built shard structs (all fields are public)
+            let payload = |f: usize, path: &Path| -> Box<dyn std::any::Any> {
+                match f {
+                    0 => Box::new(JsonlShards { path: path.to_path_buf(), ranges: ranges.clone(), total_lines: tot }),
+                    1 => Box::new(CsvShards { path: path.to_path_buf(), ranges: ranges.clone(), total_rows: tot, has_headers: h }),
+                    _ => Box::new(ParquetShards {
+                        path: path.to_path_buf(),
+                        group_ranges: ranges.iter().map(|(a, b)| (*a as usize, *b as usize)).collect(),
+                        total_rows: tot,
+                    }),
+                }
+            };
+            // ONE adapter instance for every call
+            let ops: std::sync::Arc<dyn VecOps> = match fmt {
+                0 => JsonlVecOps::<Rec>::new(),
+                1 => CsvVecOps::<Rec>::new(),
+                _ => ParquetVecOps::<Rec>::new(),
+            };
+            let pay = std::cell::Cell::new(true);
+            let part_ids = |part: Partition| -> Value {
+                match part.downcast::<Vec<Rec>>() {
+                    Ok(v) => {
+                        let mut ok = true;
+                        let ids = ids_of(&v, pseed, &mut ok);
+                        if !ok {
+                            pay.set(false);
+                        }
+                        ids
+                    }
+                    Err(_) => json!("wrong-type"),
+                }
+            };
+            let mut rounds = Vec::new();
+            for (i, path) in [&pa, &pb, &pa].into_iter().enumerate() {
+                let pl = payload(fmt, path);
+                let len = opt_outcome(|| ops.len(pl.as_ref()), |l| json!(l));
+                let split = opt_outcome(
+                    || ops.split(pl.as_ref(), [1usize, 3, 0][i]),
+                    |parts| Value::Array(parts.into_iter().map(&part_ids).collect()),
+                );
+                let clone = opt_outcome(|| ops.clone_any(pl.as_ref()), &part_ids);
+                rounds.push(json!([len, split, clone]));
+            }
+            // payloads of a foreign type: every method answers None
+            let foreign: Vec<Box<dyn std::any::Any>> =
+                vec![Box::new(vec![0u8]), payload((fmt + 1) % 3, &pa), payload((fmt + 2) % 3, &pa), Box::new(recs(pseed, 0, na))];
+            let mut all_none = true;
+            for f in &foreign {
+                all_none &= ops.len(f.as_ref()).is_none() && ops.split(f.as_ref(), 2).is_none() && ops.clone_any(f.as_ref()).is_none();
+            }
+            ok(json!([rounds, all_none, pay.get()]))
+        }
+        "g2" => {
+            let (fmt, h) = (us(&input[0]), input[1].as_bool().unwrap());
+            let ns = [input[2].as_u64().unwrap(), input[3].as_u64().unwrap()];
+            let rgs = [us(&input[4]), us(&input[5])];
+            let (per, order, t, p) = (us(&input[6]), us(&input[7]), us(&input[8]), us(&input[9]));
+            let seeds = [input[10].as_u64().unwrap(), input[11].as_u64().unwrap()];
+            let path = sc.p(FILE_NAMES[fmt]);
+            let ck = Ck { dir: sc.p("ck"), pol: (order % 7) as u64, rec: per % 2 == 1 };
+            write_fmt(fmt, &path, h, rgs[0], &recs(seeds[0], 0, ns[0]));
+            let pl = Pipeline::default();
+            // the source is built ONCE, over generation 0
+            let src = source_fmt::<Rec>(fmt, &pl, &path, h, per).unwrap();
+            let mut gens = Vec::new();
+            for g in 0..2 {
+                if g == 1 {
+                    write_fmt(fmt, &path, h, rgs[1], &recs(seeds[1], 1000, ns[1]));
+                }
+                let pay = std::cell::Cell::new(true);
+                let show = |v: Vec<Rec>| {
+                    let mut ok = true;
+                    let ids = ids_of(&v, seeds[g], &mut ok);
+                    if !ok {
+                        pay.set(false);
+                    }
+                    ids
+                };
+                let whole = path_outcome(|| whole_fmt::<Rec>(fmt, &path, h), &show);
+                // engines 0..4 (seq, par, seq+checkpoint, par+checkpoint), run in the rotation `order`
+                let mut outs = vec![Value::Null; 4];
+                for k in 0..4 {
+                    let e = (k + order) % 4;
+                    outs[e] = path_outcome(|| engine_run(e, &pl, &src, t, p, &ck), &show);
+                }
+                gens.push(json!([whole, outs, pay.get()]));
             }
             ok(Value::Array(gens))
         }
@@ -1104,6 +1398,169 @@ fn generate(seed: u64, tier: Tier, em: &mut Emitter) {
                         let (t, p) = tp(&mut rng, n);
                         let h = rng.chance(1, 2);
                         em.case("gen", json!([fmt, h, n, rg, per, order, t, p, rng.below(1 << 20), rng.below(1 << 20)]), n >= 1, &["two-generations"]);
+                    }
+                }
+            }
+        }
+    }
+
+    // 11. every streaming reader x every execution configuration x shard sizes: one source handle run
+    //     by collect_seq / collect_par / collect / Runner { Sequential | Parallel, checkpointing
+    //     off | disabled | enabled with each policy }, behind a filter, and as either side of a join
+    let rxn: Vec<u64> = if thorough { (0..=20).chain([31, 32, 33, 64, 65]).collect() } else { vec![0, 1, 2, 3, 4, 5, 6, 7, 8, 9, 16, 17, 33] };
+    for &n in &rxn {
+        for fmt in 0..3u64 {
+            let rgs: Vec<u64> = if fmt == 2 { vec![0, 1, 2, 3, 5] } else { vec![0] };
+            for rg in rgs {
+                if rg > n + 1 {
+                    continue;
+                }
+                let units = if fmt < 2 { n } else if n == 0 { 0 } else if rg == 0 { 1 } else { n.div_ceil(rg) };
+                let mut pers = vec![0, 1, 2, 3, units.saturating_sub(1), units, units + 1, 1000, HUGE];
+                if thorough {
+                    pers.extend([4, 5, 7, 8, 16, units / 2, 2 * units + 1]);
+                }
+                pers.sort_unstable();
+                pers.dedup();
+                for per in pers {
+                    if !thorough && fmt == 2 && rg != 1 && rng.chance(1, 2) {
+                        continue;
+                    }
+                    let (t, p) = tp(&mut rng, n);
+                    let nt = units >= 2 && per >= 1 && per < units;
+                    let (pol, rec) = (rng.below(7), rng.chance(1, 2));
+                    em.case(
+                        "rx",
+                        json!([fmt, rng.chance(1, 2), n, rg, per, rng.below(1 << 20), t, p, pol, rec]),
+                        nt,
+                        &["exec-configs"],
+                    );
+                }
+            }
+        }
+    }
+
+    // 12. the adapters called directly with hand-built shard structs: exact tilings, tilings with a wrong
+    //     total, shuffled / overlapping / inverted / out-of-file ranges; ONE adapter instance over two files
+    let nvo = if thorough { 2500 } else { 330 };
+    for k in 0..nvo {
+        let fmt = k % 3;
+        let (na, nb) = (rng.below(9), rng.below(9));
+        let rg = if fmt == 2 { *rng.pick(&[0u64, 1, 1, 2, 3]) } else { 0 };
+        let units = |n: u64| if fmt < 2 { n } else if n == 0 { 0 } else if rg == 0 { 1 } else { n.div_ceil(rg) };
+        let ua = units(na);
+        let per = 1 + rng.below(4);
+        let tiling = |total: u64| -> Vec<(u64, u64)> {
+            (0..total.div_ceil(per)).map(|i| (i * per, ((i + 1) * per).min(total))).collect()
+        };
+        let far = if fmt == 2 { 12 } else { *rng.pick(&[12u64, 1000, 1 << 33]) };
+        let style = rng.below(8);
+        let (tot, mut ranges): (u64, Vec<(u64, u64)>) = match style {
+            // the exact tiling of file A (the property instance applies to A, and to B when it has as many units)
+            0 | 1 => (ua, tiling(ua)),
+            // a tiling of more / fewer units than the file has
+            2 => {
+                let t = ua + 1 + rng.below(3);
+                (t, tiling(t))
+            }
+            3 => {
+                let t = ua.saturating_sub(1 + rng.below(2));
+                (t, tiling(t))
+            }
+            // the exact tiling, but the total is off
+            4 => (*rng.pick(&[0, ua.saturating_sub(1), ua + 1, far]), tiling(ua)),
+            // arbitrary ranges
+            _ => {
+                let m = rng.below(5);
+                let hi = ua + 3;
+                let rs = (0..m)
+                    .map(|_| {
+                        if rng.chance(1, 8) {
+                            (rng.below(hi), far)
+                        } else {
+                            (rng.below(hi), rng.below(hi))
+                        }
+                    })
+                    .collect();
+                (*rng.pick(&[ua, rng.below(hi), far]), rs)
+            }
+        };
+        if style == 1 && ranges.len() >= 2 {
+            // the same ranges in another order, or one of them twice
+            if rng.chance(1, 2) {
+                ranges.reverse();
+            } else {
+                let d = ranges[rng.below(ranges.len() as u64) as usize];
+                ranges.push(d);
+            }
+        }
+        let rj: Vec<Value> = ranges.iter().map(|(a, b)| json!([a, b])).collect();
+        let nt = ranges.len() >= 2 && na >= 2;
+        em.case("vo", json!([fmt, rng.chance(1, 2), na, nb, rg, tot, rj, rng.below(1 << 20)]), nt, &["adapters-direct"]);
+    }
+
+    // 13. one source handle, second generation of ANOTHER size, all four engines in every rotation
+    let g2max: u64 = if thorough { 9 } else { 6 };
+    for fmt in 0..3u64 {
+        for n1 in 0..=g2max {
+            let mut n2s = vec![0, n1.saturating_sub(1), n1, n1 + 1, 2 * n1 + 1];
+            n2s.dedup();
+            for n2 in n2s {
+                for per in [0u64, 1, 2, 3, n1, n1 + 1] {
+                    let rgp: Vec<(u64, u64)> = if fmt == 2 { vec![(0, 0), (1, 1), (2, 2), (1, 2), (2, 1), (0, 1), (3, 1)] } else { vec![(0, 0)] };
+                    for (rg1, rg2) in rgp {
+                        if !thorough && rng.chance(if fmt == 2 { 3 } else { 1 }, if fmt == 2 { 4 } else { 3 }) {
+                            continue;
+                        }
+                        let (t, p) = tp(&mut rng, n1);
+                        let order = rng.below(4);
+                        em.case(
+                            "g2",
+                            json!([fmt, rng.chance(1, 2), n1, n2, rg1, rg2, per, order, t, p, rng.below(1 << 20), rng.below(1 << 20)]),
+                            n1 >= 1 && n2 >= 1,
+                            &["two-generations", "resized"],
+                        );
+                    }
+                }
+            }
+        }
+    }
+
+    // 14. sizes around every power of two (summaries only): lines / rows / row groups x shard sizes,
+    //     whole + the four engines
+    let pows: &[u64] = if thorough { &[16, 20, 32, 64, 128, 256, 512, 1024, 2048, 4096, 8192, 16384, 32768] } else { &[16, 20, 32, 64, 128, 256, 512, 1024, 4096] };
+    for &base in pows {
+        for n in [base, base + 1] {
+            let mut pers = vec![n / 2, n - 1, (n / 16).max(2)];
+            if n <= 129 || (thorough && n <= 1025) {
+                pers.push(1);
+            }
+            if thorough {
+                pers.extend([n / 2 + 1, n, n + 1, 16, 64]);
+            }
+            pers.sort_unstable();
+            pers.dedup();
+            for &per in &pers {
+                for fmt in 0..2u64 {
+                    let (t, p) = tp(&mut rng, n);
+                    em.case("big", json!([fmt, n, 0, per, t, p]), true, &["pow2"]);
+                }
+            }
+            // parquet: n row groups of 1 row (up to 257 groups), or of 3 rows (the last one short)
+            if n <= 257 || (thorough && n <= 1025) {
+                for (rows, rg) in [(n, 1u64), (3 * n - 1, 3)] {
+                    let mut gps = vec![1, 2, n / 2, n - 1, n];
+                    if thorough {
+                        gps.extend([3, n / 2 + 1, n + 1, 16]);
+                    }
+                    gps.sort_unstable();
+                    gps.dedup();
+                    for per in gps {
+                        if !thorough && rng.chance(1, 3) {
+                            continue;
+                        }
+                        let (t, p) = tp(&mut rng, n);
+                        em.case("big", json!([2, rows, rg, per, t, p]), true, &["pow2"]);
                     }
                 }
             }
